@@ -63,7 +63,7 @@ CHECKS = {
                 essential=["bracketed_deep", "delete_absent", "overwrite"]),
     "C07": {
         "kind": "go",
-        "quick": [{"test": "TestC07", "checks": 5000, "timeout": 600},
+        "quick": [{"test": "TestC07", "checks": 1000, "shards": 16, "timeout": 600, "args": ["-verif.exhaustive32=f32"]},
                   {"test": "TestC07", "variant": "386", "checks": 1500, "timeout": 600}],
         "thorough": [{"test": "TestC07", "checks": 20000, "shards": 16, "timeout": 3000},
                      {"test": "TestC07", "variant": "386", "checks": 5000, "shards": 8, "timeout": 3000}],
@@ -71,7 +71,7 @@ CHECKS = {
                       "nan_patterns_f32", "nan_patterns_f64", "tuple"],
         "assumptions": ["oracle order = native Go comparison of the values (integers <; floats: IsNaN/Signbit/<), never a go-art function",
                         "the rank enumeration used to produce neighbouring values is itself validated against that oracle on every adjacent pair",
-                        "64-bit types are sampled (boundary sweeps + generated pairs), not enumerated; 8/16-bit types are enumerated completely in the quick tier, 32-bit types in the thorough tier",
+                        "64-bit types are sampled (boundary sweeps + generated pairs), not enumerated; the 8/16-bit types and float32 are enumerated completely in the quick tier, uint32/int32 in the thorough tier",
                         "GOARCH=386 run covers the 32-bit branches of the uint/int codecs"],
     },
     "C10": {
